@@ -419,7 +419,7 @@ func (nl *NodeList) GetNodesByName(name string) []*Node {
 // GetNodeByID returns a node with the specified ID
 func (nl *NodeList) GetNodeByID(id string) *Node {
 	for i := range nl.Nodes {
-		if nl.Nodes[i].Id == id {
+		if nl.Nodes[i] != nil && nl.Nodes[i].Id == id {
 			return nl.Nodes[i]
 		}
 	}
